@@ -143,7 +143,7 @@ PROPAGATE = [None, 'media', 'range', 'content_length', 'missing_header', 'missin
              'header_int', 'if_modified_since']
 STATUSES = [None, 200, 201, 202, 204, 206, 299, 301, 304, 400, 404, 418, 500, 503, 799, 100, 101,
             '200 OK', '404 Not Found', '299 Custom Reason', '204 No Content', ['HTTPStatus', 418], ['HTTPStatus', 204],
-            ['HTTPStatus', 200], '700 ', '201']
+            ['HTTPStatus', 200], '201']
 BODIES = [['none'], ['text', 'hello'], ['text', 'café € \U0001f600'], ['text', ''], ['data', 'bytes\x00\xff'],
           ['data', ''], ['media', {'a': 1, 'b': [1, 2, {'c': None}]}], ['media', 'café'], ['media', []],
           ['media', None], ['text+data', 'T', 'D'], ['data+media', 'D', {'m': 1}], ['text+media', 'T', {'m': 1}],
@@ -404,7 +404,7 @@ def pct(rng, s):
     out = []
     for ch in s.encode('utf-8'):
         c = chr(ch)
-        if c.isalnum() and rng.random() < 0.85:
+        if ch < 128 and c.isalnum() and rng.random() < 0.85:
             out.append(c)
         else:
             out.append('%%%02X' % ch if rng.random() < 0.8 else '%%%02x' % ch)
@@ -413,9 +413,12 @@ def pct(rng, s):
 
 def rand_target(rng):
     r = rng.random()
-    if r < 0.25:
+    if r < 0.2:
         return rng.choice(PATHS)
-    if r < 0.5:
+    if r < 0.45:
+        t = rng.choice(['/', '/items', '/items', '/items/' + rng.choice(SEGMENTS), '/u/' + rng.choice(SEGMENTS) + '/posts/' +
+                        rng.choice(['7', '42', '007', '%37']), '/files/a/' + rng.choice(SEGMENTS), '/sink/' + rng.choice(SEGMENTS)])
+    elif r < 0.6:
         base = rng.choice(['/items/', '/u/', '/files/', '/sink/', '/'])
         segs = [rng.choice(SEGMENTS) for _ in range(rng.randint(0, 3))]
         if base == '/u/':
